@@ -47,6 +47,11 @@ fn args() -> Vec<Value> {
         Value::Map([("a".to_string(), Value::String("1, b: 2".into()))].into_iter().collect()),
         Value::Vec(vec![Value::String("a, b".into())]), Value::Vec(vec![Value::String("a".into()), Value::String("b".into())]),
         Value::String("\"1\"".into()), Value::String("i1".into()), Value::Vec(vec![Value::String("i1".into())]),
+        Value::Vec(vec![Value::Vec(vec![Value::Int(1)]), Value::Int(2)]), Value::Vec(vec![Value::Vec(vec![Value::Int(1), Value::Int(2)])]), Value::Vec(vec![Value::Int(1), Value::Vec(vec![Value::Int(2)])]),
+        Value::Vec(vec![Value::Vec(vec![]), Value::Int(1)]), Value::Vec(vec![Value::Vec(vec![Value::Int(1)])]),
+        Value::Map([("a".to_string(), Value::Map([("b".to_string(), Value::Int(1))].into_iter().collect())), ("c".to_string(), Value::Int(2))].into_iter().collect()),
+        Value::Map([("a".to_string(), Value::Map([("b".to_string(), Value::Int(1)), ("c".to_string(), Value::Int(2))].into_iter().collect()))].into_iter().collect()),
+        Value::Vec(vec![Value::String("ab".into())]), Value::Vec(vec![Value::String("a".into()), Value::String("b".into())]), Value::String("ab".into()),
         Value::Map(BTreeMap::new()), Value::String("{}".into()), Value::String("[]".into()), Value::String("none".into()), Value::String("None".into()),
     ]
 }
@@ -66,9 +71,14 @@ fn arg_value(c: &Call, a: &[Value]) -> Value {
 
 fn call_expr(c: &Call, a: &[Value]) -> Expr {
     let arg = Expr::value(arg_value(c, a));
-    match c.inner {
+    let call = match c.inner {
         Some(i) => Expr::func(c.func, Expr::func(i, arg)),
         None => Expr::func(c.func, arg),
+    };
+    // some call sites select a part of the result: the cache must still hold the whole result
+    match c.arg % 5 {
+        0 if c.arg < 1000 => Expr::index(call, reval::expr::Index::from(c.arg % 2)),
+        _ => call,
     }
 }
 
